@@ -145,7 +145,7 @@ pub fn run(rep: &mut Report, thorough: bool) {
     crate::util::install_quiet_panic_hook();
     rep.rule = "ALL 32 subsets of the five injectable fail points on each of several target shapes (exhaustive), random per-thread name-read faults, and natural failures (direct auxv pointing at unmapped program headers, thread-group leader exited so that /proc/<pid>/auxv etc. are unreadable, threads that vanish before attach). Oracle: dump is Ok; soft-error stream present, JSON list; each injected failure listed under its step and no uninjected one; `[]` when nothing failed; absent best-effort stream <=> its error key; all other streams equal (canonical form) to a no-fault dump of the same quiescent target. distinct = hash(fail-point subset, target shape); non-trivial = Ok dump".into();
     let mut rng = Rng::new(rep.seed.wrapping_mul(111_119));
-    let shapes = if thorough { 8 } else { 2 };
+    let shapes = if thorough { 100 } else { 2 };
     for shape in 0..shapes {
         let cfg = TargetCfg { sentinels: 1 + (shape % 4) * 2, max_spinners: 0, heartbeats: 0, sleepers: shape % 3, exiters: 0, names: true, regions: 2, elf_files: shape % 2, fds: 2 + shape, stack_pages_max: 2, null_sp_threads: 0, big_region_pages: 0 };
         let sc = match scen::build_target(&mut rng, &cfg) {
@@ -220,7 +220,7 @@ pub fn run(rep: &mut Report, thorough: bool) {
         // per-thread name faults
         let mut tids = vec![t.pid];
         tids.extend(t.manifest.tids.iter().copied());
-        for _ in 0..(if thorough { 12 } else { 4 }) {
+        for _ in 0..(if thorough { 100 } else { 4 }) {
             let mut o = base_opts.clone();
             for tid in &tids {
                 if rng.chance(1, 2) {
@@ -271,7 +271,7 @@ pub fn run(rep: &mut Report, thorough: bool) {
         }
     }
     // natural: thread-group leader exited (auxv unreadable, leader cannot be attached)
-    for k in 0..(if thorough { 6 } else { 2 }) {
+    for k in 0..(if thorough { 40 } else { 2 }) {
         let mut b = Builder::new();
         let n = 2 + k % 3;
         for _ in 0..n {
@@ -317,7 +317,7 @@ pub fn run(rep: &mut Report, thorough: bool) {
             Err(e) => rep.violation("C11 dump failed on a target whose leader exited", json!({"error": e})),
         }
     }
-    vanish_before_name_read(rep, &mut rng, if thorough { 12 } else { 3 });
+    vanish_before_name_read(rep, &mut rng, if thorough { 100 } else { 3 });
     cpuinfo_variants(rep, &mut rng, thorough);
     rep.require("failspot_subsets_run", 32);
     rep.require("natural_failure_dumps", 3);
